@@ -61,7 +61,7 @@ def keep_c12(c, quick):
         return c["w"] in C12_W32 and (not quick or c["n"] == 9)
     if c["fn"] == "page_delta":
         return True
-    if c["fn"] in ("make_definitions", "make_definitions_big", "read_plain_t", "ba_roundtrip", "dict_roundtrip", "codec_threads"):
+    if c["fn"] in ("levels_v1", "make_definitions", "make_definitions_big", "read_plain_t", "ba_roundtrip", "dict_roundtrip", "codec_threads"):
         return False
     if c["fn"] == "delta_unpack" and m.get("pattern") == "stale":
         return True
@@ -1905,3 +1905,56 @@ def _mdb_oracle(c, r, so, guard):
 FNS["make_definitions_big"] = dict(model=lambda c: ("uleb_enc", 0), tagged=False, views=_info_views("none"), spec=lambda c: ("uleb_enc", 0),
                                    oracle=_mdb_oracle, safe=lambda c: True, cls=lambda c: {"version": c["version"]}, trivial=lambda c: False)
 EXTRA_GENERATORS.append(gen_md_big)
+
+
+# =============================================================================================
+# LEVEL streams through the Python reader core.read_data (v1 definition / repetition levels): run-structure lattice
+# =============================================================================================
+
+def gen_levels(rng, quick):
+    """widths 1..3; bp then rle, rle then bp, several bit-packed runs, several groups in one run, mixed - with RLE counts chosen so that
+    the stream's BYTE length reaches / exceeds ceil(count/8) (a reader that judges by bytes instead of by the values a run covers
+    unpacks later run headers as level bits); the rest of the page follows the stream"""
+    cases = []
+    for w in (1, 2, 3):
+        m = (1 << w) - 1
+        bp = lambda k: ["bp", [rng.randrange(m + 1) for _ in range(k)]]
+        rle = lambda k, v=None: ["rle", k, rng.randrange(m + 1) if v is None else v]
+        shapes = []
+        for k in (1, 7, 8, 9, 16, 24, 40, 100, 1000):
+            shapes += [[bp(8), rle(k)], [bp(16), rle(k, m)], [rle(k), bp(8)], [bp(8), rle(k, 0), bp(8)], [bp(8), bp(8), rle(k)]]
+        shapes += [[bp(8), bp(8), bp(8)], [bp(24)], [bp(8)], [rle(8)], [rle(3), rle(5), rle(100)], [bp(8), bp(5)], [bp(64), rle(2)],
+                   [bp(8)] * 9, [bp(8), rle(1), bp(8), rle(1), bp(8)], [rle(1), bp(8), rle(1)]]
+        for runs in shapes:
+            vals = []
+            for r_ in runs[:-1]:
+                vals += [r_[2]] * r_[1] if r_[0] == "rle" else list(r_[1])
+            last = runs[-1]
+            vals += [last[2]] * last[1] if last[0] == "rle" else list(last[1])
+            if any(r_[0] == "bp" and len(r_[1]) % 8 for r_ in runs[:-1]):
+                continue
+            cases.append({"fn": "levels_v1", "w": w, "count": len(vals), "enc": ["hyb_enc_len", w, runs], "trail": True, "stream": "main",
+                          "meta": {"want": vals, "shape": "+".join("%s%d" % (r_[0], r_[1] if r_[0] == "rle" else len(r_[1])) for r_ in runs)}})
+    return cases
+
+
+def _lv_oracle(c, r, so, guard):
+    if r[0] != "ok":
+        return [(r[0], "core.read_data: %r" % (r[:3],))]
+    want = c["meta"]["want"]
+    if not so or list(so[0][0]) != want:
+        return [("spec", "harness: the level stream does not spec-decode to the intended levels")]
+    probs = []
+    if r[1] != want:
+        bad = [(i, a, b) for i, (a, b) in enumerate(zip(r[1], want)) if a != b][:4]
+        probs.append(("values", "core.read_data (width %d, %d levels, runs %s) differs from the spec decoding of the stream at (position, got, want) %r"
+                      % (c["w"], c["count"], c["meta"]["shape"], bad)))
+    if r[2] != c["enc_len"]:
+        probs.append(("cursor", "core.read_data left the cursor at %d, the length-prefixed stream ends at %d" % (r[2], c["enc_len"])))
+    return probs
+
+
+FNS["levels_v1"] = dict(model=lambda c: ("uleb_enc", 0), tagged=False, views=_info_views("none"),
+                        spec=lambda c: ("hyb_dec_len", 0, c["w"], c["count"], _inp(c)[:c["enc_len"]]), oracle=_lv_oracle, safe=lambda c: True,
+                        cls=lambda c: {"width": c["w"], "first": c["meta"]["shape"][:2]}, trivial=lambda c: False)
+EXTRA_GENERATORS.append(gen_levels)
